@@ -88,3 +88,15 @@ Print Assumptions C03_skip_only_if_elim.
 Print Assumptions C03_skip_only_if_compose.
 Print Assumptions C03_comparison_sound.
 Print Assumptions C03_nonvacuous.
+
+(* ---- "arbitrary cached feasibility states from earlier operations": for every tree that a history of library
+   operations produces from a constructed tree, the hypothesis [marks_kids] of C03_elim_preserves holds
+   (C05_history), so one more elimination leaves the value at x unchanged ---- *)
+From AT Require Import Ops Reduce Schema WfC OpsWf ElimWf CPruneWf History CacheHistory CacheHistoryRun.
+Theorem C03_after_any_history : forall tol x ops n m init t o,
+  cwft n m init -> compat_hist (n, m) ops = true -> fresh init ->
+  (forall ox, In ox ops -> osound (fst ox) x /\ mir_sound (fst ox) tol) ->
+  run tol init ops = HOk t -> osound o x ->
+  cev (fst (elim o tol t)) x = cev t x.
+Proof. exact history_then_elim. Qed.
+Print Assumptions C03_after_any_history.
